@@ -139,6 +139,46 @@ theorem downstream_frame_free {β} (F : List (List ScoreRow) → List V2 → Lis
     exact egoPos_toMap e h o
   rw [hp ests, hp gts]
 
+/-! ## object identity
+
+`DynamicObject.__eq__` compares positions and orientations exactly (plus the frame-free time stamp and
+label). A rigid motion with a unit rotation is injective, so two objects are equal in the map
+rendering exactly when they are equal in the ego rendering — whatever the magnitude of the ego
+translation and however close two distinct objects stand. Hence every decision taken through `==`,
+`in` or `list.remove` on objects (`get_negative_objects`: which unmatched ground truths become FN / TN)
+is the same in both renderings. -/
+
+theorem samePose_toMap (e : Pose) (h : e.rot.IsUnit) (a b : Obj) :
+    (a.toMap e).samePose (b.toMap e) = a.samePose b :=
+  samePose_toMap' e h a b
+
+/-- `o in os` is frame-free -/
+theorem containsPose_toMap (e : Pose) (h : e.rot.IsUnit) (os : List Obj) (o : Obj) :
+    containsPose (os.map (Obj.toMap e)) (o.toMap e) = containsPose os o := by
+  unfold containsPose
+  rw [List.any_map]
+  congr 1
+  funext x
+  exact samePose_toMap e h o x
+
+/-- the whole equality table of a list of objects is frame-free -/
+theorem sameTable_toMap (e : Pose) (h : e.rot.IsUnit) (os : List Obj) :
+    sameTable (os.map (Obj.toMap e)) = sameTable os := by
+  unfold sameTable
+  rw [List.map_map]
+  apply List.map_congr_left
+  intro a _
+  simp only [Function.comp, List.map_map]
+  apply List.map_congr_left
+  intro b _
+  exact samePose_toMap e h a b
+
+/-- distinct objects stay distinct: in particular two ground truths a millimetre apart, 10^6 m from
+the map origin -/
+theorem distinct_toMap (e : Pose) (h : e.rot.IsUnit) (a b : Obj) (hab : a.samePose b = false) :
+    (a.toMap e).samePose (b.toMap e) = false := by
+  rw [samePose_toMap e h]; exact hab
+
 /-! ## non-vacuity: a concrete pose and pair -/
 
 def exPose : Pose := { rot := ⟨3/5, 4/5⟩, tau := 59/200, t := ⟨1000, -2000, 0⟩ }
@@ -151,5 +191,14 @@ example : circDist exEst.tau exGt.tau ≠ 1 := by decide +kernel
 example : scoreRowMap exPose (exEst.toMap exPose) (exGt.toMap exPose) = scoreRowEgo exEst exGt := by
   decide +kernel
 example : (exEst.toMap exPose).box.center ≠ exEst.box.center := by decide +kernel
+
+/-- twins 1/1024 m apart (same orientation, height), ego 10^6 m from the map origin -/
+def exFar : Pose := { rot := ⟨3/5, 4/5⟩, tau := 59/200, t := ⟨1000000 + 1/4, -(987654 + 1/2), 0⟩ }
+def exTwinA : Obj := { box := { center := ⟨12, 3, 0⟩, rot := ⟨4/5, 3/5⟩, w := 3/5, l := 3/5, h := 17/10 }, tau := 41/200 }
+def exTwinB : Obj := { exTwinA with box := { exTwinA.box with center := ⟨12 + 1/1024, 3, 0⟩ } }
+example : exFar.rot.IsUnit := by unfold Rot2.IsUnit exFar; norm_num
+example : exTwinA.samePose exTwinB = false ∧ (exTwinA.toMap exFar).samePose (exTwinB.toMap exFar) = false ∧
+    (exTwinA.toMap exFar).samePose (exTwinA.toMap exFar) = true := by decide +kernel
+example : containsPose ([exTwinA].map (Obj.toMap exFar)) (exTwinB.toMap exFar) = false := by decide +kernel
 
 end PEval.C07
